@@ -191,42 +191,6 @@ Proof.
   rewrite ln_div; [|apply exp_pos|auto]. now rewrite ln_exp.
 Qed.
 
-(* ---------- shift invariance (what the generated goals rely on) ---------- *)
-Lemma Zsum_shift c q s :
-  (s < nS)%nat -> Zsum_sh nA lam pi0 c q s = exp (- c s / lam s) * Zs q s.
-Proof.
-  intros Hs. pose proof (wf_lam _ _ _ _ _ _ W s Hs) as Hl.
-  unfold Zsum_sh, Zsum. rewrite <- sumf_scal. apply sumf_ext. intros b Hb.
-  replace ((q s b - c s) / lam s) with (- c s / lam s + q s b / lam s) by (field; lra).
-  rewrite exp_plus. lra.
-Qed.
-
-Lemma softmax_shift c q s a :
-  (s < nS)%nat -> softmax_sh nA lam pi0 c q s a = sm q s a.
-Proof.
-  intros Hs. pose proof (wf_lam _ _ _ _ _ _ W s Hs) as Hl.
-  pose proof (Zsum_pos q s Hs) as HZ. pose proof (exp_pos (- c s / lam s)) as He.
-  unfold softmax_sh, softmax. rewrite Zsum_shift by auto.
-  replace ((q s a - c s) / lam s) with (- c s / lam s + q s a / lam s) by (field; lra).
-  rewrite exp_plus. field. lra.
-Qed.
-
-Lemma lse_shift c q s : (s < nS)%nat -> lse_sh nA lam pi0 c q s = LSE q s.
-Proof.
-  intros Hs. pose proof (wf_lam _ _ _ _ _ _ W s Hs) as Hl.
-  pose proof (Zsum_pos q s Hs) as HZ.
-  unfold lse_sh, lse. rewrite Zsum_shift by auto.
-  rewrite ln_mult; [|apply exp_pos|auto]. rewrite ln_exp. field. lra.
-Qed.
-
-Lemma E2_at_shift c atol rtol q pi s a :
-  (s < nS)%nat -> E2sh_at nA lam pi0 c atol rtol q pi s a -> E2_at nA lam pi0 atol rtol q pi s a.
-Proof. intros Hs. unfold E2sh_at, E2_at. now rewrite softmax_shift. Qed.
-
-Lemma E3_at_shift c eps v q s :
-  (s < nS)%nat -> E3sh_at nA lam pi0 c eps v q s -> E3_at nA lam pi0 eps v q s.
-Proof. intros Hs. unfold E3sh_at, E3_at. now rewrite lse_shift. Qed.
-
 (* ---------- look-ahead ---------- *)
 Lemma look_diff v w d s a :
   (s < nS)%nat -> (a < nA)%nat -> 0 <= d ->
